@@ -823,6 +823,31 @@ json.dump(out, sys.stdout)
     return res
 
 
+def run_s7(seed, tier, log):
+    """C14 / aliasing: traced runs with Rc identities compared step by step with Heap.v; then the same call measured with
+    a counting allocator: bytes still live after reset + drop must be 0 unless the model's cell graph has a cycle"""
+    rng = SplitMix64(seed ^ 0x5707)
+    cases = []
+    k = 0
+    n = 360 if tier == 'quick' else 4000
+    for i in range(n):
+        v = i % 6
+        mn, mx = rng.choice([(60, 300), (60, 300), (20, 40), (5, 9), (100, 101), (200, 400)])
+        muts = [] if rng.below(2) else [m for m in SAFE_MUTS if rng.below(3) == 0]
+        unsafe = 0
+        if rng.below(8) == 0:
+            unsafe = 1
+            muts = muts + [rng.choice(UNSAFE_MUTS)]
+        src = 'seed:%d' % rng.below(1 << 32) if rng.below(3) else 'bytes:' + (rand_bytes(rng, 300).hex() or '-')
+        cases.append(spec('k%d' % k, v, mn, mx, RATES['0.5'], unsafe, int(rng.below(3) == 0), int(rng.below(3) == 0), muts, src))
+        k += 1
+    # the recorded witness of the known finding and the directed aliasing paths
+    cases.append(spec('kw', 3, 60, 300, RATES['0.1'], 0, 0, 0, [], 'seed:99'))
+    cases += [c.replace('id=p', 'id=kp', 1) for c in compiled_paths(log)]
+    res = run_lines_suite('s7', 'leak', 's7', cases, seed, tier, log)
+    return res
+
+
 KNOWN_DEEP = dict(v=2, n=40000, stack_kb=2048)
 
 
